@@ -81,6 +81,8 @@ def cases(tier, seed):
         out.append(dict(cfg, part='syndrome'))
     out.append({'part': 'converters', 'n_max': b['conv_n']})
     out.append({'part': 'rank'})
+    for n in (1, 2):
+        out.append({'part': 'inplace', 'n': n})
     return out
 
 
@@ -375,6 +377,43 @@ def eval_converters(case):
     return res
 
 
+def eval_inplace(case):
+    """A sparse operand that is updated in place by the library's own row operation
+    (bsparse.insert_mod2) between two products: the second product must be the symplectic form of
+    the row as it is NOW (the product is a function of its arguments, not of earlier calls)."""
+    from panqec import bsparse
+    from panqec.bpauli import bs_prod
+    n = case['n']
+    N = 4 ** n
+    res = {'evals': 0, 'nontrivial': 0, 'violations': [], 'outcomes': [], 'samples': [], 'extra': {}}
+    nbad = 0
+    for a in range(N):
+        for idx in range(2 * n):
+            for b in range(N):
+                row = csr_matrix(np.array([gf2.int_to_vec(a, 2 * n)], dtype='uint8'))
+                other = rep(b, n, 'uint8/1d')
+                first = _vals(bs_prod(row, other))
+                bsparse.insert_mod2(idx, row)
+                a2 = a ^ (1 << idx)
+                for X, Y, want in ((row, other, gf2.symp(a2, b, n)), (other, row, gf2.symp(b, a2, n)),
+                                   (row, row, 0)):
+                    got = _vals(bs_prod(X, Y))
+                    res['evals'] += 1
+                    if got != [float(want)] or first != [float(gf2.symp(a, b, n))]:
+                        nbad += 1
+                        if len(res['violations']) < 3:
+                            res['violations'].append({
+                                'key': {'part': 'inplace', 'kind': 'product-after-in-place-row-update-wrong', 'n': n},
+                                'detail': {'row_before': gf2.int_to_pauli_string(a, n), 'toggled_bit': idx,
+                                           'other': gf2.int_to_pauli_string(b, n), 'expected': want,
+                                           'got': str(got)}})
+    res['nontrivial'] = res['evals']
+    res['extra']['inplace_failures'] = nbad
+    res['outcomes'] = ['inplace|%d|%d' % (n, nbad)]
+    res['samples'].append({'row': 'XZ', 'toggled_bit': 0, 'other': 'ZZ'})
+    return res
+
+
 def eval_rank(case):
     from panqec.bpauli import brank
     res = {'evals': 0, 'nontrivial': 0, 'violations': [], 'outcomes': [], 'samples': [], 'extra': {}}
@@ -401,4 +440,4 @@ def eval_rank(case):
 
 def eval_case(case):
     return {'pairs': eval_pairs, 'stacks': eval_stacks, 'overlap': eval_overlap, 'syndrome': eval_syndrome,
-            'converters': eval_converters, 'rank': eval_rank}[case['part']](case)
+            'converters': eval_converters, 'rank': eval_rank, 'inplace': eval_inplace}[case['part']](case)
